@@ -3,6 +3,7 @@
 //! request lines:
 //!   F <path>                 select a TZif file (TimeZone::from_tz_data)
 //!   S <tz string>            select a POSIX TZ string (settings with a failing reader)
+//!   R <dir>\t<TZ value>      resolve a TZ value the way tzset(3) does, with <dir> as the only zoneinfo directory and the real file system
 //!   T <unix time>            -> "T <offset> <abbr> <isdst>"  or  "T ERR <error>"
 //!   L <y> <mo> <d> <h> <mi> <s>  -> "L <instant>:<offset>:<abbr>:<isdst>,...|<gap instant>:<offset before>:<offset after>,..." or "L ERR .."
 //!   X <y0> <y1>              -> "X <instants...>" model DST start/end instants of the selected rule for years y0..=y1
@@ -55,6 +56,20 @@ pub fn run(args: &crate::common::Args) -> i32 {
                     writeln!(w, "ERR {e}").unwrap();
                 }
             },
+            "R" => {
+                let (dir, value) = rest.split_once('\t').unwrap_or((rest, ""));
+                let dirs = [dir];
+                match crate::common::guard(|| TimeZoneSettings::new(&dirs, |p| Ok(std::fs::read(p)?)).parse_posix_tz(value).map_err(|e| format!("{e:?}"))).unwrap_or_else(|m| Err(format!("PANIC {m}"))) {
+                    Ok(z) => {
+                        zone = Some(z);
+                        writeln!(w, "OK").unwrap();
+                    }
+                    Err(e) => {
+                        zone = None;
+                        writeln!(w, "ERR {e}").unwrap();
+                    }
+                }
+            }
             "T" => {
                 let t: i64 = rest.trim().parse().expect("instant");
                 match &zone {
